@@ -120,7 +120,7 @@ def _distinct_rows_at_least(C, X, k):
         C.assume(len(set(map(tuple, X.tolist()))) >= k)
 
 
-def _check_solution(C, X, labels, inertia, centers, k, tag):
+def _check_solution(C, X, labels, inertia, centers, k, tag, range_of=None):
     n, d = X.shape
     labels = [int(v) for v in labels]
     C.true(all(0 <= v < k for v in labels) and len(labels) == n, tag + "labels-valid")
@@ -134,6 +134,8 @@ def _check_solution(C, X, labels, inertia, centers, k, tag):
     if not finite:
         return
     for c in range(k):
+        if range_of is not None and c not in range_of:
+            continue  # a caller-supplied centre that never attracts a point stays where the caller put it
         for j in range(d):
             lo, hi = X[:, j].min(), X[:, j].max()
             C.true(centers[c, j] >= lo, tag + "centre-inside-the-coordinate-range", detail=(c, j))
@@ -162,6 +164,9 @@ def sc_lloyd(cfg):
             init = X[idx].copy() if not C.symbolic else sx.sarr([[X[i, j] for j in range(d)] for i in idx])
             if not C.symbolic:
                 init = numpy.array(init, dtype=float)
+        elif cfg["init"] == "free":
+            # centres supplied by the caller: anywhere, also outside the bounding box of the data
+            init = sx.cur().reals("c0", k, d) if C.symbolic else numpy.array([[float(C.inputs.get(f"c0_{c}_{j}", c * 3 - 1)) for j in range(d)] for c in range(k)])
         else:
             init = "random"
         tol = 0 if cfg["tol0"] else (sx.cur().real("tol") if C.symbolic else float(C.inputs.get("tol", 0.5)))
@@ -176,7 +181,7 @@ def sc_lloyd(cfg):
         with harness.patched(km, **stubs_kl), harness.patched(k22, **stubs_22):
             labels, inertia, centers, n_iter = km._kmeans_single_lloyd("L1", X, None, k, max_iter=cfg["max_iter"], init=init, tol=tol, random_state=0)
         C.true(1 <= n_iter <= cfg["max_iter"], "n_iter<=max_iter")
-        _check_solution(C, X, labels, inertia, centers, k, "lloyd/")
+        _check_solution(C, X, labels, inertia, centers, k, "lloyd/", range_of=set(int(v) for v in labels) if cfg["init"] == "free" else None)
 
     return scenario
 
@@ -313,6 +318,8 @@ def configs(tier):
     if tier == "quick":
         out.append(dict(kind="lloyd", n=3, d=2, k=2, max_iter=2, init="array", tol0=True))  # two centres can move in opposite directions
     out.append(dict(kind="lloyd", n=2, d=1, k=2, max_iter=2, init="random", tol0=True))
+    for mi, tol0 in ((1, True), (2, False)):
+        out.append(dict(kind="lloyd", n=3, d=1, k=2, max_iter=mi, init="free", tol0=tol0))
     out.append(dict(kind="lloyd", n=3, d=1, k=1, max_iter=2, init="random", tol0=True))
     out.append(dict(kind="fit", n=3, d=1, k=2, max_iter=1 if tier == "quick" else 2, n_init=2))
     out.append(dict(kind="l2"))
@@ -323,7 +330,7 @@ def run(ctx, rep):
     rep.add_functions("mlmodel.kmeans_l1", ["_init_centroids", "_centers_dense", "_kmeans_single_lloyd", "_labels_inertia", "_tolerance", "KMeansL1L2.__init__", "KMeansL1L2.fit", "KMeansL1L2._fit_l1", "KMeansL1L2.predict", "KMeansL1L2._predict_l1", "KMeansL1L2.transform", "KMeansL1L2._transform_l1"])
     rep.add_functions("mlmodel._kmeans_022", ["_labels_inertia_precompute_dense"])
     cfgs = configs(ctx.tier)
-    rep.bounds = dict(shapes="(n, d, k, max_iter): " + str(sorted(set((c["n"], c["d"], c["k"], c["max_iter"]) for c in cfgs if c["kind"] == "lloyd"))), init=["random (every permutation)", "array (every choice of k distinct rows)"], n_init=2, tol=["0", "symbolic >= 0"])
+    rep.bounds = dict(shapes="(n, d, k, max_iter): " + str(sorted(set((c["n"], c["d"], c["k"], c["max_iter"]) for c in cfgs if c["kind"] == "lloyd"))), init=["random (every permutation)", "array (every choice of k distinct rows)", "array of arbitrary symbolic centres (n=3, k=2)"], n_init=2, tol=["0", "symbolic >= 0"])
     rep.assumptions = [
         "pairwise_distances_argmin_min(metric='manhattan') and manhattan_distances are an SX model (sum |x-c|, first argmin), cross-checked against scikit-learn on 20 concrete inputs in this run; check_array is the identity on the symbolic matrix; _check_sample_weight answers unit weights",
         "the random state's draws are symbolic (realised: every permutation); seeds handed to the single runs are opaque",
